@@ -37,9 +37,9 @@ def scenario(args):
     for _ in range(2):
         m = rng.choice([1, 2, 3])
         bufs = []
-        for _i in range(m):
+        for n_ in rng.sample(range(1, 33), m):       # distinct lengths: distinct first bytes, so distinct after truncation
             k += 1
-            raw = payload(rng.randrange(1, 33), k, rng)
+            raw = payload(n_, k, rng)
             bufs.append(bytearray(raw) if btype == "bytearray" else raw)
         ev.append(lp.call("send", bufs if rng.random() < 0.5 else tuple(bufs)))
         ev.append(lp.drain())
